@@ -22,6 +22,13 @@ class UNBOUND_T:
 UNBOUND = UNBOUND_T()
 
 
+class FalsyHandler(list):
+    """a callable handler object that is falsy while it has recorded nothing"""
+
+    def __call__(self, exc):
+        self.append(exc)
+
+
 class Boom(Exception):
     pass
 
@@ -88,7 +95,11 @@ class Run:
         kw.update(hole_in=self._hole_in, hole_out=self._hole_out, boom=_boom, kbi=_kbi)
         kw['__translate'] = self.template.translate
         kw['__decode'] = bytes.decode
-        kw['__on_error_handler'] = (self.handler_calls_.append if handler_on else None)
+        if handler_on == 'falsy':
+            self.handler_calls_ = FalsyHandler()
+            kw['__on_error_handler'] = self.handler_calls_
+        else:
+            kw['__on_error_handler'] = (self.handler_calls_.append if handler_on else None)
         kw['target_language'] = None
         kw['repeat'] = RepeatDict({})
         self.helper_names = ('hole_in', 'hole_out', 'boom', 'kbi', '__translate', '__decode',
@@ -227,7 +238,7 @@ class Run:
             return len([1 for a in self.handler_calls_ if a is exc])
 
         def handler_configured():
-            return self.handler_on
+            return bool(self.handler_on)
 
         def errorinfo_of(k=0):
             for tag, snap in self.snapshots.items():
@@ -326,7 +337,7 @@ def main():
     value_choices = list(itertools.product(vals, repeat=len(probes)))
     pre_choices = [{}] + [{n: 'outer-' + n} for n in own] + \
         ([{n: 'outer-' + n for n in own}] if len(own) > 1 else [])
-    cases = list(itertools.product(child_choices, value_choices, (True, False), pre_choices))
+    cases = list(itertools.product(child_choices, value_choices, (True, 'falsy', False), pre_choices))
     rnd.shuffle(cases)
     budget = job.get('budget', 4000)
     tried = 0
